@@ -95,7 +95,7 @@ UniIdx == {NGrid + ui_k : ui_k \in {ui_j \in 1..NUni : ~Quick \/ URank(ui_j) <= 
 AllSeq == GridSeq \o [ui_k \in 1..NUni |-> VStr(UniAll[ui_k].u)]
 NAll == NGrid + NUni
 \* partners of a look-alike string (both orders, every binary operator): a number (ToNumber path) and a string (+ < == between strings)
-UniPartnerIdx == IF Quick THEN {6, 21} ELSE TargetIdx
+UniPartnerIdx == IF Quick THEN {6, 21} ELSE {1, 3, 6, 12, 19, 21, 25, 28}
 UniCmpdPartner == 6
 UniTargets == <<"local", "computed">>
 
@@ -104,19 +104,20 @@ UniTargets == <<"local", "computed">>
 \* literals, both operands in one program (one function body, one constant pool): every binary operator on the first
 \* spelling of each, the other spellings next to the partners below; compound assignment `var x = <lit>; x op= <lit>` in
 \* every target form; unary / update / conditional on every spelling.
-LitIdx == IF Quick THEN (1..18) \cup {19, 20, 25, 28, 30, 31} ELSE 1..64
+LitIdx == IF Quick THEN (1..18) \cup {19, 20, 25, 28, 30, 31} ELSE 1..48
 LitAltPartners == IF Quick THEN {2, 3, 6, 25} ELSE TargetIdx
-LitTgtIdx == IF Quick THEN {2, 3, 7, 9, 20, 28} ELSE {1, 2, 3, 6, 7, 9, 14, 20, 27, 28, 31}
+LitTgtIdx == IF Quick THEN {2, 3, 7, 9, 20, 28} ELSE {2, 3, 6, 7, 9, 14, 20, 28}
 LitAltOps == <<"+", "-", ",">>
+LitAltCmpdOps == <<"+", "-", "*", "/">>                  \* thorough only: compound assignment on the other spellings
 Lits(gi) == LitSpellings(AllSeq[gi])
 LitCombos(ia, ib) ==
   LET na == Len(Lits(ia))  nb == Len(Lits(ib))
       tgt == ia \in LitTgtIdx /\ ib \in LitTgtIdx
   IN <<[sa |-> 1, sb |-> 1, bin |-> BinOpSeq, cmpd |-> IF tgt THEN CmpdOpSeq ELSE <<>>]>>
      \o (IF ib \in LitAltPartners
-         THEN [li_k \in 1..(na - 1) |-> [sa |-> li_k + 1, sb |-> 1, bin |-> LitAltOps, cmpd |-> IF tgt /\ ~Quick THEN CmpdOpSeq ELSE <<>>]] ELSE <<>>)
+         THEN [li_k \in 1..(na - 1) |-> [sa |-> li_k + 1, sb |-> 1, bin |-> LitAltOps, cmpd |-> IF tgt /\ ~Quick THEN LitAltCmpdOps ELSE <<>>]] ELSE <<>>)
      \o (IF ia \in LitAltPartners
-         THEN [li_k \in 1..(nb - 1) |-> [sa |-> 1, sb |-> li_k + 1, bin |-> LitAltOps, cmpd |-> IF tgt /\ ~Quick THEN CmpdOpSeq ELSE <<>>]] ELSE <<>>)
+         THEN [li_k \in 1..(nb - 1) |-> [sa |-> 1, sb |-> li_k + 1, bin |-> LitAltOps, cmpd |-> IF tgt /\ ~Quick THEN LitAltCmpdOps ELSE <<>>]] ELSE <<>>)
 \* the sub-grids cover what they are meant to cover (a dropped class fails the specification run, not silently)
 SpaceLaw ==
   /\ \A cl \in UniClasses : \E gi \in UniIdx : UniAll[gi - NGrid].cls = cl
